@@ -32,6 +32,7 @@ type Case struct {
 	Stm       int   `json:"stm"`
 	Driver    bool  `json:"driver,omitempty"`
 	Block     bool  `json:"block,omitempty"`
+	Ponder    bool  `json:"ponder,omitempty"` // go ponder ... then ponderhit: the deadline armed at ponderhit is judged
 }
 
 func limits(c Case) (bool, int64, int64) {
@@ -92,12 +93,14 @@ func checkCase(c Case, rec *evid.Rec) error {
 
 // mock search: records the options it was given; optionally blocks until stopped.
 type mock struct {
-	mu    sync.Mutex
-	soft  int64
-	got   bool
-	block bool
-	start time.Time
-	stopd time.Duration
+	mu      sync.Mutex
+	soft    int64
+	got     bool
+	block   bool
+	start   time.Time
+	stopd   time.Duration
+	started chan struct{}
+	stopAt  time.Time
 }
 
 func (m *mock) Clear()       {}
@@ -111,16 +114,72 @@ func (m *mock) Go(b *board.Board, opts ...search.Option) (chess.Score, move.Move
 	m.soft, m.got = o.SoftTime, true
 	m.start = time.Now()
 	m.mu.Unlock()
+	if m.started != nil {
+		close(m.started)
+	}
 	if m.block && o.Stop != nil {
 		<-o.Stop
 		m.mu.Lock()
 		m.stopd = time.Since(m.start)
+		m.stopAt = time.Now()
 		m.mu.Unlock()
 	}
 	return 0, move.From(chess.E2) | move.To(chess.E4), 0
 }
 
+// ponderCase: `go ponder <clock>` on a blocking search, then `ponderhit`; the stop channel must close no later
+// than the remaining time after the ponderhit (the deadline armed at ponderhit is the hard limit).
+func ponderCase(c Case, rec *evid.Rec) error {
+	_, _, hard := limits(c)
+	m := &mock{block: true, started: make(chan struct{})}
+	ses := eng.NewSession(uci.WithSearch(m))
+	ses.Send("setoption name Ponder value true")
+	if c.Stm == 1 {
+		ses.Send("position startpos moves e2e4")
+	}
+	w, b, wi, bi := c.Remaining, c.OppTime, c.Inc, c.OppInc
+	if c.Stm == 1 {
+		w, b, wi, bi = c.OppTime, c.Remaining, c.OppInc, c.Inc
+	}
+	ses.Send(fmt.Sprintf("go ponder wtime %d btime %d winc %d binc %d", w, b, wi, bi))
+	select {
+	case <-m.started:
+	case <-time.After(20 * time.Second):
+		fmt.Println("INFRA-ERROR mock search did not start")
+		os.Exit(2)
+	}
+	hit := time.Now()
+	ses.Send("ponderhit")
+	slack := 1500 * time.Millisecond
+	limit := time.Duration(c.Remaining)*time.Millisecond + slack
+	_, ok := ses.Wait("bestmove", limit)
+	late := !ok
+	if !ok {
+		ses.Send("stop")
+		ses.Wait("bestmove", 30*time.Second)
+	}
+	if !ses.Quit(30 * time.Second) {
+		fmt.Println("INFRA-ERROR driver did not quit")
+		os.Exit(2)
+	}
+	m.mu.Lock()
+	defer m.mu.Unlock()
+	if rec != nil {
+		rec.Eval(1)
+		rec.Class("ponderhit_deadline")
+		rec.NT(evid.H("ponder", c))
+		rec.Note("ponder: remaining %d ms, hard limit %d ms, stop closed %v after ponderhit", c.Remaining, hard, m.stopAt.Sub(hit).Round(time.Millisecond))
+	}
+	if late {
+		return fmt.Errorf("%+v: after ponderhit the search was not stopped within the remaining time %d ms (+%v slack); the hard limit is %d ms", c, c.Remaining, slack, hard)
+	}
+	return nil
+}
+
 func driverCase(c Case, rec *evid.Rec) error {
+	if c.Ponder {
+		return ponderCase(c, rec)
+	}
 	_, soft, hard := limits(c)
 	m := &mock{block: c.Block}
 	ses := eng.NewSession(uci.WithSearch(m))
@@ -174,7 +233,7 @@ func driverCase(c Case, rec *evid.Rec) error {
 func TestC14(t *testing.T) {
 	evid.Main(t, "C14", func(rec *evid.Rec) {
 		margin := int64(uci.TimeSafetyMargin)
-		rec.Rule("exhaustive grid: remaining time 1..400 ms step 1, +-3 around the break points (margin, 2*margin, 4*margin, the points where 4*soft crosses remaining-margin for each increment), decades up to 10^12 (+-1); increments {0..100, decades to 10^9, remaining/8 +-1, remaining/2}; both colours; move time absent / {1, margin-1, margin, margin+1, 1000, 10^7}; opponent clock varied. Random elsewhere (rapid). Oracle = only what the property promises: hard > 0; hard <= remaining; remaining > margin => hard <= remaining - margin (margin read from uci.TimeSafetyMargin); with a move time soft == hard == movetime; changing only the opponent's time/increment changes nothing. Driver leg: with a recording mock search the SoftTime option passed equals the computed soft value; with a blocking mock and a 40..120 ms clock the stop channel closes (10 s ceiling, three attempts). Non-trivial = grid point where a clamp is active or a move time is set; distinct by (remaining, inc, movetime, colour)")
+		rec.Rule("exhaustive grid: remaining time 1..400 ms step 1, +-3 around the break points (margin, 2*margin, 4*margin, the points where 4*soft crosses remaining-margin for each increment), decades up to 10^12 (+-1); increments {0..100, decades to 10^9, remaining/8 +-1, remaining/2}; both colours; move time absent / {1, margin-1, margin, margin+1, 1000, 10^7}; opponent clock varied. Random elsewhere (rapid). Oracle = only what the property promises: hard > 0; hard <= remaining; remaining > margin => hard <= remaining - margin (margin read from uci.TimeSafetyMargin); with a move time soft == hard == movetime; changing only the opponent's time/increment changes nothing. Driver leg: with a recording mock search the SoftTime option passed equals the computed soft value; with a blocking mock and a 40..120 ms clock the stop channel closes (10 s ceiling, three attempts); `go ponder` + `ponderhit` on a blocking mock with an increment far above the remaining time: the stop channel closes within the remaining time + 1.5 s slack (three attempts). Non-trivial = grid point where a clamp is active or a move time is set; distinct by (remaining, inc, movetime, colour)")
 		rec.Assume("hook uci.VerifTimeLimits (build tag verif) forwards to the unexported time control helpers")
 		shard, n := evid.Shard()
 		var rems []int64
@@ -265,6 +324,23 @@ func TestC14(t *testing.T) {
 			}
 			if err != nil {
 				rec.Violate("deadline", err.Error(), c)
+			}
+		}
+		// after ponderhit the deadline must be the hard limit (increment much larger than the remaining time: soft >> hard)
+		for i := 0; i < evid.Pick(2, 8); i++ {
+			sh, _ := evid.Shard()
+			if sh%4 != 0 {
+				break
+			}
+			c := Case{Remaining: 100 + int64((int(evid.Seed())*31+97*i)%300), Inc: 8000 + int64(1000*i), OppTime: 60000, OppInc: 0, Stm: i % 2, Driver: true, Ponder: true}
+			var err error
+			for attempt := 0; attempt < 3; attempt++ {
+				if err = driverCase(c, rec); err == nil {
+					break
+				}
+			}
+			if err != nil {
+				rec.Violate("ponder_deadline", err.Error(), c)
 			}
 		}
 	}, func(check string, raw json.RawMessage) error {
